@@ -165,6 +165,8 @@ def explore_jobs(mk_mod, mk_name, docs, jobs, cfg, workers, wall_budget_s, chunk
     agg['wall_s'] = time.time() - t0
     if os.environ.get('VERIF_DEBUG'):
         print('[explore-cfg] %s %s workers=%s budget=%s' % (json.dumps(cfg, sort_keys=True, default=str)[:300], hashlib.sha256(json.dumps(jobs, sort_keys=True).encode()).hexdigest()[:8], workers, wall_budget_s), file=sys.stderr)
+        for k, v in sorted(agg.get('per_job', {}).items(), key=lambda kv: -kv[1]['task_s']):
+            print('[job] %s %s' % (v, k[:200]), file=sys.stderr)
         print('[explore] %d jobs, %d results, %.0fs, stats %s' % (len(jobs), len(agg['results']), agg['wall_s'], {k: (round(v, 1) if isinstance(v, float) else v) for k, v in agg['stats'].items()}), file=sys.stderr)
     return agg
 
@@ -174,6 +176,10 @@ def _merge(agg, r, pending):
         agg['errors'].append((r['job'], r['error']))
         return
     agg['results'].extend(r['results'])
+    pj = agg.setdefault('per_job', {}).setdefault(json.dumps(r['job'], sort_keys=True), dict(paths=0, task_s=0.0, cex=0))
+    pj['paths'] += len(r['results'])
+    pj['task_s'] = round(pj['task_s'] + r['stats'].get('task_s', 0), 1)
+    pj['cex'] += sum(1 for q in r['results'] if q.get('verdict') == 'cex')
     for k, v in r['stats'].items():
         agg['stats'][k] = agg['stats'].get(k, 0) + v
     for k, v in r['encoded'].items():
@@ -294,6 +300,9 @@ class Report:
             self.incomplete_reasons[k] = self.incomplete_reasons.get(k, 0) + v
         for k, v in agg.get('unfinished_jobs', {}).items():
             self.unfinished[k] = self.unfinished.get(k, 0) + v
+        pj = self.extra.setdefault('per_job', {})
+        for k, v in agg.get('per_job', {}).items():
+            pj[k] = dict(v, unexplored_prefixes=agg.get('unfinished_jobs', {}).get(k, 0))
         for job, err in agg['errors']:
             self.inconclusive.append('%s in job %s' % (err, json.dumps(job)))
 
